@@ -7,8 +7,9 @@ dispatcher `process()` with one program-counter value per blocking point (the co
 handler, `Shutdown`.  `TQ.next`/`TQ.enabled` are the executable form that the driver `drv_c15` runs against the real
 queue on every check; `next_is_step` says that they are the same relation.
 
-Every theorem quantifies over all configurations (`workers`, `depth : Int`, `inCap`), all task sets, all panic
-patterns and all interleavings: `Reachable c s` is "s is reachable from the initial state by any sequence of rules".
+Every theorem quantifies over all configurations (`workers`, `depth : Int`, `inCap`, and `handler`: a recovery handler
+is installed or not — `New` without the `RecoveryHandler` option and `RecoveryHandler(nil)` are `handler = false`), all
+task sets, all panic patterns and all interleavings: `Reachable c s` is "s is reachable from the initial state by any sequence of rules".
 Helper lemmas are in `Lemmas/TaskQueue.lean` and `Lemmas/TaskQueue2.lean`. -/
 namespace C15
 open TQ
@@ -77,10 +78,12 @@ theorem fifo_single_worker (c : Cfg) (hw : c.workers = 1) (s : S) (h : Reachable
   have := (bounds c s h).1
   omega
 
-/-- **a panicking task is reported to the recovery handler exactly once**: the handler has been called once for every
-    panicking task that has finished, never for any other task, never twice -/
+/-- **a panicking task is reported to the recovery handler exactly once**: if a handler is installed it has been called
+    once for every panicking task that has finished, never for any other task, never twice; without a handler there
+    are no calls -/
 theorem panic_reported_once (c : Cfg) (s : S) (h : Reachable c s) (id : Nat) :
-    s.recovered.count id = (if id ∈ s.pan then s.finished.count id else 0) ∧ s.recovered.count id ≤ 1 := by
+    s.recovered.count id = (if c.handler = true ∧ id ∈ s.pan then s.finished.count id else 0) ∧
+    s.recovered.count id ≤ 1 := by
   have h1 := recovered_inv c s h id
   have h2 := (started_le_one c s h id).2.1
   refine ⟨h1, ?_⟩
@@ -88,18 +91,33 @@ theorem panic_reported_once (c : Cfg) (s : S) (h : Reachable c s) (id : Nat) :
   · exact h2
   · omega
 
-/-- **a panicking task does not kill its worker**: when a task ends — by returning or by panicking — its worker is
-    still there (it moves from `running` to `reporting`, the number of idle workers `workers − running − reporting` is
-    unchanged), and the only other effect of a panic is the handler call -/
+/-- **a panicking task does not kill its worker — with or without a recovery handler**: when a task ends, by returning
+    or by panicking, its worker is still there (it moves from `running` to `reporting`, the number of idle workers
+    `workers − running − reporting` is unchanged) and nothing else changes, whatever `c.handler` is; the only effect of
+    the handler is the record of its call -/
 theorem panic_worker_survives (c : Cfg) (s : S) (t : Nat) (ht : t ∈ s.running) :
-    Step c s (doFinish s t) ∧
-    (doFinish s t).running.length + (doFinish s t).reporting = s.running.length + s.reporting ∧
-    (doFinish s t).recovered = (if t ∈ s.pan then t :: s.recovered else s.recovered) ∧
-    (doFinish s t).tq = s.tq ∧ (doFinish s t).backlog = s.backlog ∧ (doFinish s t).inq = s.inq := by
-  refine ⟨Step.finish s t ht, ?_, rfl, rfl, rfl, rfl⟩
+    Step c s (doFinish c.handler s t) ∧
+    (doFinish c.handler s t).running.length + (doFinish c.handler s t).reporting = s.running.length + s.reporting ∧
+    (doFinish c.handler s t).recovered = (if c.handler = true ∧ t ∈ s.pan then t :: s.recovered else s.recovered) ∧
+    (doFinish c.handler s t).tq = s.tq ∧ (doFinish c.handler s t).backlog = s.backlog ∧
+    (doFinish c.handler s t).inq = s.inq ∧ (doFinish c.handler s t).pc = s.pc ∧
+    eraseRecovered (doFinish c.handler s t) = eraseRecovered (doFinish (!c.handler) s t) := by
+  refine ⟨Step.finish s t ht, ?_, rfl, rfl, rfl, rfl, rfl, rfl⟩
   have := List.length_erase_of_mem ht
   have hpos : 0 < s.running.length := List.length_pos_of_mem ht
   simp only [this]; omega
+
+/-- **the handler configuration is irrelevant to everything but the handler calls**: the executable model with a handler
+    and without one takes the same steps to the same states up to the field `recovered`.  (All the other theorems of
+    this file — in particular `conservation`, `exactly_once`, `no_deadlock`, `shutdown_after_all_done`,
+    `shutdown_returns` — are stated for every `c`, hence for both values of `c.handler`.) -/
+theorem handler_irrelevant (c : Cfg) (b : Bool) (s : S) (l : Label) :
+    (next { c with handler := b } s l).map eraseRecovered = (next c s l).map eraseRecovered :=
+  handler_only_affects_recovered c b s l
+
+/-- without a handler (`New` without the option, `RecoveryHandler(nil)`) there are no handler calls at all -/
+theorem no_handler_no_calls (c : Cfg) (hh : c.handler = false) (s : S) (h : Reachable c s) : s.recovered = [] :=
+  recovered_nil_of_no_handler c hh s h
 
 /-- **no deadlock after Shutdown** (whatever panics, whatever the depth; `workers ≥ 1`): until the dispatcher has
     signalled completion to `Shutdown`, some rule is enabled — a dispatcher or worker step, or the end of a running task
@@ -127,13 +145,14 @@ theorem shutdown_after_all_done (c : Cfg) (s : S) (h : Reachable c s) (hp : s.sh
 
 /-- … and every panic among them has been reported exactly once by then -/
 theorem shutdown_after_all_reported (c : Cfg) (s : S) (h : Reachable c s) (hp : s.shut = 2) (id : Nat)
-    (hid : id < s.nextId) : s.recovered.count id = if id ∈ s.pan then 1 else 0 := by
+    (hid : id < s.nextId) : s.recovered.count id = if c.handler = true ∧ id ∈ s.pan then 1 else 0 := by
   have h1 := (shutdown_after_all_done c s h (Or.inl hp)).1 id
   have h2 := recovered_inv c s h id
   simp only [hid, if_true] at h1
   rw [h2, h1]
 
-/-- **nothing prevents Shutdown from returning** (liveness, no fairness assumption): take any reachable state in which
+/-- **nothing prevents Shutdown from returning** (liveness, no fairness assumption; any panic pattern, handler installed
+    or not — `c` is arbitrary): take any reachable state in which
     `Shutdown` has been called and any run from it — an infinite sequence of states in which at every index some rule
     fires (a dispatcher, worker or end-of-task step, chosen by an arbitrary scheduler) or nothing is enabled and the
     state repeats.  Then `Shutdown` has returned after at most `mu s + 1` steps, where the variant `mu` weighs every
@@ -161,6 +180,15 @@ example :
        .finish 0, .report, .waitReady, .take, .sendDirect, .shutdown, .closed, .drainDone, .finish 1, .report, .take,
        .finalReady, .finish 2, .report, .finalReady, .finalClose, .signalDone]).map
       (fun s => (s.shut, s.finished, s.recovered, s.started)) = some (2, [2, 1, 0], [1], [0, 1, 2]) := by
+  decide
+
+/-- the same run on a queue without recovery handler: identical, except that no handler call is recorded -/
+example :
+    (runLabels { workers := 1, depth := 0, inCap := 2, handler := false } {}
+      [.submit false, .recv, .handoff, .take, .submit true, .recv, .handoff, .submit false, .recv, .toWait,
+       .finish 0, .report, .waitReady, .take, .sendDirect, .shutdown, .closed, .drainDone, .finish 1, .report, .take,
+       .finalReady, .finish 2, .report, .finalReady, .finalClose, .signalDone]).map
+      (fun s => (s.shut, s.finished, s.recovered, s.started)) = some (2, [2, 1, 0], [], [0, 1, 2]) := by
   decide
 
 /-- the hypotheses of `no_deadlock` are satisfiable: after `Shutdown` with a task still queued -/
